@@ -1,5 +1,6 @@
 import Driver.Fam.Ser
 import CifModel.Model.Value
+import CifModel.Model.HeapHist
 /-
   family `val` (property C19): one request = one sequence of value / list / table / packet operations on a pool of
   8 value slots (`s0`…`s7`) and 4 packet slots (`p0`…`p3`); ops are separated by `|` tokens.
@@ -21,6 +22,7 @@ import CifModel.Model.Value
 namespace Driver.Fam.Val
 open Driver CifModel CifModel.Model.Value
 open Driver.Fam.Ser (showV numbOf)
+open CifModel.Model.Hist (Root Ref HOp PState stepP)
 
 structure St where
   vals : List (Option V)
@@ -29,13 +31,7 @@ deriving Inhabited
 
 def St.init : St := { vals := List.replicate 8 none, pkts := List.replicate 4 none }
 
-inductive Root | val (k : Nat) | pkt (k : Nat)
-deriving DecidableEq, Repr
-
-structure Ref where
-  root : Root
-  path : List Step
-deriving DecidableEq, Repr
+/- `Root` / `Ref` are those of Model/HeapHist.lean (the op language of the history theorems) -/
 
 def getRoot (st : St) : Root → Option V
   | .val k => (st.vals.getD k none)
@@ -347,15 +343,87 @@ def splitOps (toks : List String) : List (List String) :=
     | t :: ts => if t == "|" then go [] (cur.reverse :: acc) ts else go (t :: cur) acc ts
   (go [] [] toks).filter (fun o => !o.isEmpty)
 
+/-! ### the op language of the history theorems (Model/HeapHist.lean): one request op ↦ one `HOp`
+
+  `parseOp` is shared with family `valheap`, whose driver executes `Hist.stepC` on the result.  Here the PURE interpretation
+  `Hist.stepP` is run next to the interpreter above: after every operation the two states must be equal (`!hist` in the
+  answer otherwise, which the C library's answer never contains) — so `runP`, the pure side of `C19_history_heap`, is tied to
+  the library through this family's per-operation dumps. -/
+
+def parseDst (d : String) : Option (Option Nat) :=
+  if d == "~" then some none
+  else match parseSlot d with
+    | some (.val k) => some (some k)
+    | _ => none
+
+def slotRef (t : String) : Option Ref := (parseSlot t).map (fun rt => { root := rt, path := [] })
+
+def parseOp? (op : List String) : Option HOp :=
+  match op with
+  | ["new", s, k] => do
+      let r ← parseSlot s; let kind ← k.toNat?
+      match r with
+      | .val i => pure (.new i kind)
+      | _ => none
+  | "bld" :: s :: toks => do
+      let r ← parseSlot s
+      match r, CifArg.parseValue (Ser.cfg) (toks.length + 1) toks with
+      | .val i, some (v, []) => pure (.bld i v)
+      | _, _ => none
+  | ["free", s] => do
+      let r ← parseSlot s
+      match r with
+      | .val i => pure (.free i)
+      | _ => none
+  | ["cln", a, b] => do let src ← parseRef a; let dst ← parseRef b; pure (.cln src dst)
+  | ["init", a, k] => do let r ← parseRef a; let kind ← k.toNat?; pure (.init r kind)
+  | ["ichr", a, h] => do let r ← parseRef a; let t ← unhex h; pure (.ichr r t)
+  | ["cchr", a, h] => do
+      let r ← parseRef a; let t ← unhexOpt h
+      match t with
+      | some s => pure (.ichr r s)
+      | none => none
+  | ["lget", a, i] => do let r ← parseRef a; let idx ← i.toNat?; pure (.lget r idx)
+  | ["lset", a, i, s] => do let r ← parseRef a; let idx ← i.toNat?; let src ← parseSrc s; pure (.lset r idx src)
+  | ["lins", a, i, s] => do let r ← parseRef a; let idx ← i.toNat?; let src ← parseSrc s; pure (.lins r idx src)
+  | ["lrem", a, i, d] => do let r ← parseRef a; let idx ← i.toNat?; let dst ← parseDst d; pure (.lrem r idx dst)
+  | ["tget", a, k] => do let r ← parseRef a; let key ← parseKey k; pure (.mget r key.2)
+  | ["pget", p, k] => do let r ← slotRef p; let key ← parseKey k; pure (.mget r key.2)
+  | ["tset", a, k, s] => do let r ← parseRef a; let key ← parseKey k; let src ← parseSrc s; pure (.mset r key.1 key.2 src)
+  | ["pset", p, k, s] => do let r ← slotRef p; let key ← parseKey k; let src ← parseSrc s; pure (.mset r key.1 key.2 src)
+  | ["trem", a, k, d] => do let r ← parseRef a; let key ← parseKey k; let dst ← parseDst d; pure (.mrem r key.2 dst)
+  | ["prem", p, k, d] => do let r ← slotRef p; let key ← parseKey k; let dst ← parseDst d; pure (.mrem r key.2 dst)
+  | "pnew" :: p :: n :: names => do
+      let r ← parseSlot p; let cnt ← n.toNat?
+      if names.length != cnt then none
+      let keys ← names.mapM parseKey
+      match r with
+      | .pkt i => pure (.pnew i keys)
+      | _ => none
+  | ["pfree", p] => do
+      let r ← parseSlot p
+      match r with
+      | .pkt i => pure (.pfree i)
+      | _ => none
+  | _ => none
+
+def parseOp (op : List String) : HOp := (parseOp? op).getD .nop
+
+/-- the state of this interpreter equals the state of `Hist.runP` -/
+def sameState (st : St) (ps : PState) : Bool :=
+  (List.range 8).all (fun k => getRoot st (.val k) == ps.get (.val k)) && (List.range 4).all (fun k => getRoot st (.pkt k) == ps.get (.pkt k))
+
 def run (ops : List (List String)) : Option String := do
   let mut st := St.init
+  let mut ps : PState := CifModel.Model.Hist.PState.empty
   let mut out : List String := []
   for op in ops do
+    ps := stepP ps (parseOp op)
     match step st op with
-    | none => out := "bad" :: out
+    | none => out := (if sameState st ps then "bad" else "bad !hist") :: out
     | some (st', res, roots) =>
       st := st'
-      out := (res ++ String.join (roots.map (fun r => " : " ++ showRoot st' r))) :: out
+      out := (res ++ String.join (roots.map (fun r => " : " ++ showRoot st' r)) ++ (if sameState st' ps then "" else " !hist")) :: out
   let final := (List.range 8).map (fun k => showRoot st (.val k)) ++ (List.range 4).map (fun k => showRoot st (.pkt k))
   pure ("vl " ++ " | ".intercalate out.reverse ++ " # " ++ " ; ".intercalate final)
 
